@@ -318,12 +318,17 @@ class ConvolvedFluxes(object):
             # same units as the current ones for the interpolation, and we need
             # to add the flux unit back.
 
+            # Converting the clamped values back to the units of the table can
+            # overshoot the largest aperture by round-off, so clamp again there.
+            apertures_interp = c.apertures.to(self.apertures.unit)
+            apertures_interp[apertures_interp > self.apertures.max()] = self.apertures.max()
+
             flux_interp = interp1d(self.apertures, self.flux)
-            c.flux = flux_interp(c.apertures.to(self.apertures.unit)) * self.flux.unit
+            c.flux = flux_interp(apertures_interp) * self.flux.unit
 
             # The following is not strictly correct - errors from interpolation is not interpolation of errors
             error_interp = interp1d(self.apertures, self.error)
-            c.error = error_interp(c.apertures.to(self.apertures.unit)) * self.error.unit
+            c.error = error_interp(apertures_interp) * self.error.unit
 
         else:
 
